@@ -1,14 +1,16 @@
 //! Kani harnesses for the shared handles of src/channel/oneshot_broadcast.rs (hooked inside `if_alloc::shared`): lifecycle C11.
 //! GROUP: oneshot_broadcast_shared
 //! MODULE: channel::oneshot_broadcast::if_alloc::shared::kani_verif_shared
-//! TAGS: C01 C11 C17
+//! TAGS: C01 C11 C17 C12
 //! N: quick=4 thorough=4
 //! UNWIND_EXTRA: 3
 //! KIND: harness (loop-free handle code; full-domain handle counters where there are any)
-//! BOUNDED: clone: full usize domain of the handle counter; drop: counter values 1, 2, isize::MAX; no waiters queued
+//! BOUNDED: clone: full usize domain of the handle counter; drop: counter values 1, 2, isize::MAX; at most one receiver waiting
 //! GENERATED from kani/shared_template.rs.in by kani/gen_oneshot.py.
 use super::*;
 use core::sync::atomic::Ordering;
+#[path = "/verif/kani/kit.rs"]
+mod kit;
 
 fn closed_flag(ch: &GenericOneshotBroadcastChannel<NoopLock, u8>) -> bool {
     ch.inner.lock().is_fulfilled
@@ -64,6 +66,33 @@ unsafe fn nw_clone(_: *const ()) -> core::task::RawWaker {
 }
 unsafe fn nw_noop(_: *const ()) {}
 static NOOP: core::task::RawWakerVTable = core::task::RawWakerVTable::new(nw_clone, nw_noop, nw_noop, nw_noop);
+
+/// the shared handles put nothing of their own between the futures and the channel: a re-poll refreshes the stored waker,
+/// and send / close wake the pending receiver exactly once, through the waker of its LATEST poll
+#[kani::proof]
+fn shared_receive_repoll_then_woken_through_latest_waker() {
+    use core::future::Future;
+    let (s, r) = generic_oneshot_broadcast_channel::<NoopLock, u8>();
+    let w0 = kit::waker(0);
+    let w1 = kit::waker(1);
+    let mut f = core::mem::ManuallyDrop::new(r.receive());
+    let mut cx0 = core::task::Context::from_waker(&w0);
+    let p = unsafe { core::pin::Pin::new_unchecked(&mut *f) }.poll(&mut cx0);
+    assert!(p.is_pending());
+    let mut cx1 = core::task::Context::from_waker(&w1);
+    let p = unsafe { core::pin::Pin::new_unchecked(&mut *f) }.poll(&mut cx1);
+    assert!(p.is_pending() && kit::total_wakes() == 0, "[C12] polling wakes nobody");
+    let with_value: bool = kani::any();
+    if with_value {
+        let _ = s.send(7);
+    } else {
+        let _ = s.inner.channel.close();
+    }
+    assert!(kit::wakes(1) == 1 && kit::wakes(0) == 0, "[C12] a pending shared receiver is woken by send / close exactly once, through the waker of its LATEST poll");
+    let p = unsafe { core::pin::Pin::new_unchecked(&mut *f) }.poll(&mut cx1);
+    assert!(p.is_ready(), "[C12] [C11] the woken shared receiver completes");
+    core::mem::forget((s, r));
+}
 
 /// the shared (Arc) receive future: Pending keeps its handle, EVERY Ready (value or None) gives it up
 #[kani::proof]
